@@ -259,3 +259,8 @@ pub fn same_literal_two_labels(b: &Built) -> bool {
     };
     check(&b.dfa) || b.words.values().any(check)
 }
+
+/// number of characters of `p` the within-word automaton can consume with complete tokens
+pub fn max_matched_len(sub: &Ldfa, cmds: &CmdOut, p: &str) -> usize {
+    sub_positions(sub, cmds, p).iter().map(|(_, i)| *i).max().unwrap_or(0)
+}
